@@ -1,11 +1,13 @@
 (* C30 — Retention deletes only expired segments of the right path.
    Only statements here; every proof is `exact <lemma of Proofs/C30_Cleaner.v>`.
    Model: Model/C30_Cleaner.v (one Cleaner.doRun pass over a directory tree) on top of Path.Decode
-   (Model/C26_RecPath.v, after fix 2b44fe1) and the substituted path format (Model/C31_DeleteSeg.v).
-   Every theorem holds for all oracles `rematch` (the configurations' regular expressions) and `resolve`
-   (conf.FindPathConf), all local offsets, configuration lists, instants `now` and trees. *)
+   (Model/C26_RecPath.v, after fix 2b44fe1 and the re-encode comparison) and the substituted path format
+   (Model/C31_DeleteSeg.v). Every theorem holds for all oracles `rematch` (the configurations' regular
+   expressions) and `resolve` (conf.FindPathConf), all local zones L (C26's `lzone`: any pair of functions
+   "offset time.Date subtracts for a reading" / "offset in force at an instant" - fixed offsets fixed_lz loff
+   and zone-database zones lz_of_zone z included), configuration lists, instants `now` and trees. *)
 From Coq Require Import List ZArith.
-Require Import MTX.Lib.Civil MTX.Model.C26_RecPath MTX.Proofs.C26_RecPath
+Require Import MTX.Lib.Civil MTX.Model.C26_RecPath MTX.Proofs.C26_RecPath MTX.Model.C26_Zone MTX.Proofs.C26_Zone
                MTX.Model.C31_DeleteSeg MTX.Model.C30_Cleaner MTX.Proofs.C30_Cleaner.
 Import ListNotations.
 Local Open Scope Z_scope.
@@ -14,21 +16,21 @@ Local Open Scope Z_scope.
    FindAllPathsWithSegments, that FindPathConf resolves to a configuration c with deleteAfter <> 0, such that the
    entry lies at or below the common path of c's format for pn, its name decodes under that format, and the
    decoded start is <= now - deleteAfter. *)
-Theorem C30_only_expired : forall loff rematch resolve confs now tree e,
-  In e (deleted loff rematch resolve confs now tree) ->
+Theorem C30_only_expired : forall L rematch resolve confs now tree e,
+  In e (deleted L rematch resolve confs now tree) ->
   In e tree /\ snd e = KOther /\
   exists pn j c p u n,
-    In pn (path_names loff rematch confs tree) /\ resolve pn = Some j /\ nth_error confs j = Some c /\
+    In pn (path_names L rematch confs tree) /\ resolve pn = Some j /\ nth_error confs j = Some c /\
     pc_da c <> 0 /\ valid_path_name pn = true /\
     under (common_path (seg_format c pn)) (fst e) = true /\
-    decode loff (seg_format c pn) (fst e) = Some (p, u, n) /\ start_ns u n <= now - pc_da c.
+    decode_lz L (seg_format c pn) (fst e) = Some (p, u, n) /\ start_ns u n <= now - pc_da c.
 Proof. exact only_expired. Qed.
 Print Assumptions C30_only_expired.
 
 (* ... whose whole name is the literals of that format with well-shaped fields in between (C26):
    x.mp4.bak, prefixed or nested look-alikes are never deleted *)
-Theorem C30_deleted_whole_name : forall loff rematch resolve confs now tree e,
-  In e (deleted loff rematch resolve confs now tree) ->
+Theorem C30_deleted_whole_name : forall L rematch resolve confs now tree e,
+  In e (deleted L rematch resolve confs now tree) ->
   exists pn j c caps, resolve pn = Some j /\ nth_error confs j = Some c /\
     fst e = fill (tokenize (seg_format c pn)) caps /\ forallb cap_shape caps = true.
 Proof. exact deleted_whole_name. Qed.
@@ -36,59 +38,101 @@ Print Assumptions C30_deleted_whole_name.
 
 (* the reported path names: the name of a static configuration that has a segment, or a valid name captured
    from a file under a regular-expression configuration's format and matched by that expression *)
-Theorem C30_path_names : forall loff rematch confs tree pn,
-  In pn (path_names loff rematch confs tree) ->
+Theorem C30_path_names : forall L rematch confs tree pn,
+  In pn (path_names L rematch confs tree) ->
   exists i c, nth_error confs i = Some c /\
     ((pc_regex c = false /\ pn = pc_name c /\
-      exists e r, In e tree /\ recognises loff (seg_format c (pc_name c)) e = Some r)
+      exists e r, In e tree /\ recognises L (seg_format c (pc_name c)) e = Some r)
      \/ (pc_regex c = true /\ valid_path_name pn = true /\ rematch i pn = true /\
-         exists e u n, In e tree /\ recognises loff (pc_rp c ++ pc_ext c) e = Some (pn, u, n))).
+         exists e u n, In e tree /\ recognises L (pc_rp c ++ pc_ext c) e = Some (pn, u, n))).
 Proof. exact path_names_sound. Qed.
 Print Assumptions C30_path_names.
 
 (* Converse: every expired segment (under the configuration's common path) of a reported path is deleted. *)
-Theorem C30_all_expired : forall loff rematch resolve confs now tree e pn j c p u n,
-  In e tree -> snd e = KOther -> In pn (path_names loff rematch confs tree) ->
+Theorem C30_all_expired : forall L rematch resolve confs now tree e pn j c p u n,
+  In e tree -> snd e = KOther -> In pn (path_names L rematch confs tree) ->
   resolve pn = Some j -> nth_error confs j = Some c -> pc_da c <> 0 -> valid_path_name pn = true ->
   under (common_path (seg_format c pn)) (fst e) = true ->
-  decode loff (seg_format c pn) (fst e) = Some (p, u, n) -> start_ns u n <= now - pc_da c ->
-  In e (deleted loff rematch resolve confs now tree).
+  decode_lz L (seg_format c pn) (fst e) = Some (p, u, n) -> start_ns u n <= now - pc_da c ->
+  In e (deleted L rematch resolve confs now tree).
 Proof. exact all_expired. Qed.
 Print Assumptions C30_all_expired.
 
 (* a static configuration's path is reported as soon as the segment exists *)
-Theorem C30_all_expired_static : forall loff rematch resolve confs now tree e j c p u n,
+Theorem C30_all_expired_static : forall L rematch resolve confs now tree e j c p u n,
   In e tree -> snd e = KOther -> nth_error confs j = Some c -> pc_regex c = false ->
   resolve (pc_name c) = Some j -> pc_da c <> 0 -> valid_path_name (pc_name c) = true ->
   under (common_path (seg_format c (pc_name c))) (fst e) = true ->
-  decode loff (seg_format c (pc_name c)) (fst e) = Some (p, u, n) -> start_ns u n <= now - pc_da c ->
-  In e (deleted loff rematch resolve confs now tree).
+  decode_lz L (seg_format c (pc_name c)) (fst e) = Some (p, u, n) -> start_ns u n <= now - pc_da c ->
+  In e (deleted L rematch resolve confs now tree).
 Proof. exact all_expired_static. Qed.
 Print Assumptions C30_all_expired_static.
 
 (* a segment the recorder wrote (C26's Encode) for a path resolving to a regular-expression configuration that
    matches it is reported through its own name (C26_roundtrip) and deleted once expired *)
-Theorem C30_all_expired_recorded : forall loff rematch resolve confs now tree e pn j c t,
+Theorem C30_all_expired_recorded : forall L rematch resolve confs now tree e pn j c t,
   let F := pc_rp c ++ pc_ext c in
   let g := seg_format c pn in
   In e tree -> snd e = KOther -> fst e = encode_go F pn t ->
   resolve pn = Some j -> nth_error confs j = Some c -> pc_regex c = true -> rematch j pn = true ->
   pc_da c <> 0 -> valid_path_name pn = true -> name_ok pn = true -> Forall (fun x => x <> 37) (pc_ext c) ->
   no_stray (tokenize (pc_rp c)) = true ->
-  wf_format F = true -> identifies (tokenize F) = true -> encodable loff (tokenize F) t = true ->
+  wf_format F = true -> identifies (tokenize F) = true -> encodable_lz L (tokenize F) t = true ->
   no_stray (tokenize g) = true -> no_path (tokenize g) = true -> identifies (tokenize g) = true ->
-  encodable loff (tokenize g) t = true ->
+  encodable_lz L (tokenize g) t = true ->
   under (common_path F) (fst e) = true -> under (common_path g) (fst e) = true ->
   start_ns (fst (trunc_start (tokenize g) t)) (snd (trunc_start (tokenize g) t)) <= now - pc_da c ->
-  In e (deleted loff rematch resolve confs now tree).
+  In e (deleted L rematch resolve confs now tree).
 Proof. exact all_expired_recorded. Qed.
 Print Assumptions C30_all_expired_recorded.
 
+(* a deleted file's name IS what Encode writes for the path and start Decode reports (C26_whole_name, full
+   strength since the re-encode comparison) *)
+Theorem C30_deleted_is_encoding : forall L rematch resolve confs now tree e,
+  In e (deleted L rematch resolve confs now tree) ->
+  exists pn j c p u n off, resolve pn = Some j /\ nth_error confs j = Some c /\
+    decode_lz L (seg_format c pn) (fst e) = Some (p, u, n) /\
+    fst e = encode_go (seg_format c pn) p (mkI u n off) /\ start_ns u n <= now - pc_da c.
+Proof. exact deleted_is_encoding. Qed.
+Print Assumptions C30_deleted_is_encoding.
+
+(* In a zone-database zone (Model/C26_Zone.v; DST zones included) the hypothesis "time.Date maps the reading
+   back" of C30_all_expired_recorded is not needed: EVERY segment the recorder wrote is recognised and is
+   deleted once the start the listing reports for it has expired; that start is the recorded instant outside
+   the repeated hours and at most 2B away from it (one clock change) inside one. *)
+Theorem C30_all_expired_recorded_zone : forall B z rematch resolve confs now tree e pn j c u n,
+  zone_ok B z = true ->
+  let t := local_instant z u n in
+  let F := pc_rp c ++ pc_ext c in
+  let g := seg_format c pn in
+  In e tree -> snd e = KOther -> fst e = encode_go F pn t ->
+  resolve pn = Some j -> nth_error confs j = Some c -> pc_regex c = true -> rematch j pn = true ->
+  pc_da c <> 0 -> valid_path_name pn = true -> name_ok pn = true -> Forall (fun x => x <> 37) (pc_ext c) ->
+  no_stray (tokenize (pc_rp c)) = true ->
+  wf_format F = true -> identifies (tokenize F) = true -> enc_ranges (tokenize F) t = true ->
+  no_stray (tokenize g) = true -> no_path (tokenize g) = true -> identifies (tokenize g) = true ->
+  enc_ranges (tokenize g) t = true ->
+  under (common_path F) (fst e) = true -> under (common_path g) (fst e) = true ->
+  start_ns (decoded_unix (lz_of_zone z) (tokenize g) t) (snd (trunc_start (tokenize g) t)) <= now - pc_da c ->
+  In e (deleted (lz_of_zone z) rematch resolve confs now tree).
+Proof. exact all_expired_recorded_zone. Qed.
+Print Assumptions C30_all_expired_recorded_zone.
+
+Theorem C30_listed_start_exact_zone : forall B z ts u n, zone_ok B z = true -> in_repeat (lookup z) u = false ->
+  decoded_unix (lz_of_zone z) ts (local_instant z u n) = u.
+Proof. exact decoded_exact_zone. Qed.
+Print Assumptions C30_listed_start_exact_zone.
+
+Theorem C30_listed_start_near_zone : forall B z ts u n, zone_ok B z = true ->
+  Z.abs (decoded_unix (lz_of_zone z) ts (local_instant z u n) - u) <= 2 * B.
+Proof. exact decoded_near_zone. Qed.
+Print Assumptions C30_listed_start_near_zone.
+
 (* doRun processes the paths one after the other on the shrinking tree: what is left is exactly the
    complement of `deleted` (the order of the path names does not matter) *)
-Theorem C30_sequential_pass : forall loff rematch resolve confs now tree e,
-  In e (run_seq loff rematch resolve confs now tree) <->
-  In e tree /\ ~ In e (deleted loff rematch resolve confs now tree).
+Theorem C30_sequential_pass : forall L rematch resolve confs now tree e,
+  In e (run_seq L rematch resolve confs now tree) <->
+  In e tree /\ ~ In e (deleted L rematch resolve confs now tree).
 Proof. exact run_seq_complement. Qed.
 Print Assumptions C30_sequential_pass.
 
@@ -109,7 +153,7 @@ Example C30_example :
                (old ++ [46;98;97;107], KOther); (seg [97;47;98] 1600000000, KOther);
                (seg [97] 1500000000, KDir)] in
   common_path (seg_format (mkPC [97] false rp_default mp4 0) [97]) = [47;114;101;99;47;97] /\
-  map fst (deleted 0 rematch resolve confs now tree) = [old] /\
-  path_names 0 rematch confs tree = [[97]; [97]; [97]; [97;47;98]] /\
-  length (run_seq 0 rematch resolve confs now tree) = 6%nat.
+  map fst (deleted (fixed_lz 0) rematch resolve confs now tree) = [old] /\
+  path_names (fixed_lz 0) rematch confs tree = [[97]; [97]; [97]; [97;47;98]] /\
+  length (run_seq (fixed_lz 0) rematch resolve confs now tree) = 6%nat.
 Proof. vm_compute. repeat split. Qed.
